@@ -59,6 +59,8 @@ TDefaults == /\ Rec.ev = "Defaults"
                   /\ Clause("mass-default-is-tabulated-mass", r[2] = r[4], r)
                   /\ Clause("width-default-is-tabulated-width", r[3] = r[5], r)
              /\ \A i \in DOMAIN Rec.dups : Clause("equal-named-parameters-carry-equal-defaults", Rec.dups[i][2] = Rec.dups[i][3], Rec.dups[i])
+             \* (builders that share parameter names: every parameter of every lineshape still gets its default)
+             /\ Clause("every-lineshape-parameter-has-a-default", Rec.missing = <<>>, Rec.missing)
              /\ PrintT(<<"STAT", "default-rows", Len(Rec.rows)>>)
              /\ UNCHANGED <<trs, choice>>
 \* the selector is a mapping over exactly the decays of the reaction (incl. symmetrisation variants);
